@@ -13,12 +13,13 @@ import (
 
 func init() {
 	register(&Prop{
-		ID:    "C09",
-		Title: "Lossy delivery preserves the folded view; slow readers never block writers",
+		ID:          "C09",
+		Title:       "Lossy delivery preserves the folded view; slow readers never block writers",
 		Explanation: "R09.1 extracts the complete 4x4 (x last-seed flag) decision table of mergeChanges and checks fold-equivalence constraints on a per-id view: a trailing REMOVE stays a REMOVE (dropped exactly after a pending ADD), anything else is delivered present-making with b's new value, ADD then non-REMOVE stays ADD, REMOVE then ADD is REPLACE, old values chain from the older change, last-seed is the disjunction. R09.2 in DropExcess and mergeCollectionExcess every send on the output is a select alternative next to a receive from the input, the stage exits when the input closes, closes its output by defer, and DropExcess overwrites its slot with each received message. R09.3 the lossy wrapper is applied exactly when !Backpressure (decision tables of both onUpdate functions). R09.4 Value.set publishes with a context from context.WithTimeout(positive constant), returns an error when the deadline was exceeded, and listener.send selects on the send context. Does NOT decide fold-equivalence of the merge queue over all interleavings (FIFO-of-ids logic), nor timing.",
 		Assumptions: []string{"select chooses a ready case", "context.WithTimeout cancels at the deadline"},
 		Run:         runC09,
 		Controls: []Control{
+			{Name: "derived-request-drops-backpressure", File: "pkg/resource/collection.go", Old: "func (c *Collection) onUpdate(", New: "func derivedRequestForControl(rr *ReadRequest) *ReadRequest {\n\treturn &ReadRequest{ReadMask: rr.ReadMask, Include: rr.Include}\n}\n\nfunc (c *Collection) onUpdate(", Expect: "R09.8"},
 			{Name: "add-remove-delivered", File: "pkg/resource/backpressure.go", Old: "\t\tcase types.ChangeType_REMOVE:\n\t\t\treturn CollectionChange{}, false", New: "\t\tcase types.ChangeType_REMOVE:\n\t\t\treturn b, true", Expect: "R09.1"},
 			{Name: "remove-add-is-add", File: "pkg/resource/backpressure.go", Old: "\t\tif b.ChangeType != types.ChangeType_REMOVE {\n\t\t\tb.ChangeType = types.ChangeType_REPLACE\n\t\t}", New: "", Expect: "R09.1"},
 			{Name: "old-value-not-chained", File: "pkg/resource/backpressure.go", Old: "\tcase types.ChangeType_UPDATE:\n\t\tb.OldValue = a.OldValue", New: "\tcase types.ChangeType_UPDATE:", Expect: "R09.1"},
@@ -43,6 +44,7 @@ func runC09(c *an.Ctx) {
 	registryRebuild(c, "R09.6")
 	r045as(c, "R09.7") // a forwarding loop drops an event only by configuration: with or without backpressure the last event is the final value
 	c.Min("R09.7", 2)
+	r098(c)
 	c.Min("R09.5", 5)
 	c.Min("R09.1", 32)
 	c.Min("R09.2", 8)
@@ -605,73 +607,95 @@ func r095(c *an.Ctx, rule string) {
 	c.Check(t1 == nil, rule, name+"|emitted change leaves the pending map", sel.Pos(), "delete(messages, id) on every path after the send",
 		"after a change has been handed to the subscriber its entry stays in the pending map: the next change of that id is merged with history the subscriber already consumed (e.g. a delivered ADD followed by a REMOVE cancels out and the REMOVE is lost)")
 	c.Check(t2 == nil, rule, name+"|emitted change leaves the queue", sel.Pos(), "queue.Remove on every path after the send", "after a change has been sent its id stays queued: it is sent again")
-	// (b) stored <=> queued
+	// (b) stored <=> queued. The bookkeeping may live in the goroutine or in helpers it delegates to (put/merge
+	// methods of a small queue type): each function is judged on the stores and pushes it makes itself; in a helper
+	// the return to the caller ends the step like a communication does.
+	bodies := append([]*ssa.Function{g}, an.TransparentCalleesOf(g, 2)...)
+	isDirectPush := func(in ssa.Instruction) bool { return an.IsCallTo(in, "(*container/list.List).PushBack") }
 	okPush, okStore := true, true
 	nPush := 0
-	an.Instrs(g, func(in ssa.Instruction) {
-		if isPush(in) {
-			nPush++
-			// some map store must reach this push without communication in between, on every path: search backwards by
-			// checking that no path from the last communication reaches the push avoiding map stores
-			found := false
-			an.Instrs(g, func(m ssa.Instruction) {
-				if isMapStore(m) && an.Dominates(m, in) {
-					t, _ := an.PathQuery{Target: func(x ssa.Instruction) bool { return x == in }, Avoid: isComm}.From(g, m)
-					if t != nil {
-						found = true
+	for _, f := range bodies {
+		f := f
+		boundary := func(in ssa.Instruction) bool {
+			if isComm(in) {
+				return true
+			}
+			_, isRet := in.(*ssa.Return)
+			return isRet && f != g
+		}
+		an.Instrs(f, func(in ssa.Instruction) {
+			if isDirectPush(in) {
+				nPush++
+				found := false
+				an.Instrs(f, func(m ssa.Instruction) {
+					if isMapStore(m) && an.Dominates(m, in) {
+						t, _ := an.PathQuery{Target: func(x ssa.Instruction) bool { return x == in }, Avoid: isComm}.From(f, m)
+						if t != nil {
+							found = true
+						}
 					}
+				})
+				if !found {
+					okPush = false
 				}
-			})
-			if !found {
-				okPush = false
 			}
-		}
-		if isMapStore(in) {
-			t, _ := an.PathQuery{Target: isComm, Avoid: isPush}.From(g, in)
-			if t != nil {
-				okStore = false
-			}
-		}
-	})
-	c.Check(okPush && okStore && nPush > 0, rule, name+"|an id is queued exactly when its change is stored", g.Pos(), fmt.Sprintf("%d PushBack site(s)", nPush),
-		"messages[id] = … and queue.PushBack(id) do not come in pairs: a stored change is never emitted, or a queued id has no change")
-	// (c) a cancelled pair disappears, (d) a merged change replaces its queue entry
-	for _, cl := range an.CallsTo(g, an.ModulePath+"/pkg/resource.mergeChanges") {
-		for _, u := range an.Referrers(cl.(*ssa.Call)) {
-			ex, ok := u.(*ssa.Extract)
-			if !ok || ex.Index != 1 {
-				continue
-			}
-			checked := false
-			for _, v := range flowsToIf(ex) {
-				checked = true
-				dropTarget := v.Block().Succs[1]
-				if u, isNot := v.Cond.(*ssa.UnOp); isNot && u.Op == token.NOT {
-					dropTarget = v.Block().Succs[0]
+			if isMapStore(in) {
+				t, _ := an.PathQuery{Target: boundary, Avoid: isPush}.From(f, in)
+				if t != nil {
+					okStore = false
 				}
-				t, _ := an.PathQuery{Target: isComm, Avoid: isMapDelete}.FromBlock(dropTarget)
-				c.Check(t == nil, rule, name+"|a cancelled pair leaves the pending map", v.Pos(), "", "when mergeChanges says 'do not send' the pending entry is kept: the cancelled ADD is still delivered")
-				tp, _ := an.PathQuery{Target: isPush, Avoid: isComm}.FromBlock(dropTarget)
-				c.Check(tp == nil, rule, name+"|a cancelled pair is not queued", v.Pos(), "", "a cancelled pair is queued again")
-			}
-			if !checked {
-				c.Bad(rule, name+"|a cancelled pair leaves the pending map", cl.Pos(), "the send verdict of mergeChanges is ignored")
-			}
-		}
-		// (d): between the merge and the PushBack the old queue entry can be removed (the search loop for the
-		// entry may in principle find nothing, so only the presence of the removal on some path is required)
-		found := false
-		an.Instrs(g, func(in ssa.Instruction) {
-			if !isRemove(in) {
-				return
-			}
-			t1, _ := an.PathQuery{Target: func(x ssa.Instruction) bool { return x == in }, Avoid: isComm}.From(g, cl)
-			t2, _ := an.PathQuery{Target: isPush, Avoid: isComm}.From(g, in)
-			if t1 != nil && t2 != nil {
-				found = true
 			}
 		})
-		c.Check(found, rule, name+"|a merged change replaces its queue entry", cl.Pos(), "queue.Remove lies between the merge and PushBack", "after merging with a pending change the id is queued a second time and its old queue entry is never removed")
+	}
+	c.Check(okPush && okStore && nPush > 0, rule, name+"|an id is queued exactly when its change is stored", g.Pos(), fmt.Sprintf("%d PushBack site(s)", nPush),
+		"messages[id] = … and queue.PushBack(id) do not come in pairs: a stored change is never emitted, or a queued id has no change")
+	// (c) a cancelled pair disappears, (d) a merged change replaces its queue entry - in whichever function merges
+	for _, mf := range bodies {
+		g := mf
+		isComm := func(in ssa.Instruction) bool {
+			if isComm(in) {
+				return true
+			}
+			_, isRet := in.(*ssa.Return)
+			return isRet && mf != bodies[0]
+		}
+		for _, cl := range an.CallsTo(g, an.ModulePath+"/pkg/resource.mergeChanges") {
+			for _, u := range an.Referrers(cl.(*ssa.Call)) {
+				ex, ok := u.(*ssa.Extract)
+				if !ok || ex.Index != 1 {
+					continue
+				}
+				checked := false
+				for _, v := range flowsToIf(ex) {
+					checked = true
+					dropTarget := v.Block().Succs[1]
+					if u, isNot := v.Cond.(*ssa.UnOp); isNot && u.Op == token.NOT {
+						dropTarget = v.Block().Succs[0]
+					}
+					t, _ := an.PathQuery{Target: isComm, Avoid: isMapDelete}.FromBlock(dropTarget)
+					c.Check(t == nil, rule, name+"|a cancelled pair leaves the pending map", v.Pos(), "", "when mergeChanges says 'do not send' the pending entry is kept: the cancelled ADD is still delivered")
+					tp, _ := an.PathQuery{Target: isPush, Avoid: isComm}.FromBlock(dropTarget)
+					c.Check(tp == nil, rule, name+"|a cancelled pair is not queued", v.Pos(), "", "a cancelled pair is queued again")
+				}
+				if !checked {
+					c.Bad(rule, name+"|a cancelled pair leaves the pending map", cl.Pos(), "the send verdict of mergeChanges is ignored")
+				}
+			}
+			// (d): between the merge and the PushBack the old queue entry can be removed (the search loop for the
+			// entry may in principle find nothing, so only the presence of the removal on some path is required)
+			found := false
+			an.Instrs(g, func(in ssa.Instruction) {
+				if !isRemove(in) {
+					return
+				}
+				t1, _ := an.PathQuery{Target: func(x ssa.Instruction) bool { return x == in }, Avoid: isComm}.From(g, cl)
+				t2, _ := an.PathQuery{Target: isPush, Avoid: isComm}.From(g, in)
+				if t1 != nil && t2 != nil {
+					found = true
+				}
+			})
+			c.Check(found, rule, name+"|a merged change replaces its queue entry", cl.Pos(), "queue.Remove lies between the merge and PushBack", "after merging with a pending change the id is queued a second time and its old queue entry is never removed")
+		}
 	}
 }
 
@@ -706,4 +730,52 @@ func flowsToIf(v ssa.Value) []*ssa.If {
 	}
 	walk(v)
 	return out
+}
+
+// r098: a read request that is derived from the caller's request keeps the options that decide HOW events are
+// delivered: a literal of ReadRequest that takes some field from another ReadRequest also carries Backpressure,
+// UpdatesOnly and the read mask over (or starts as a copy of it). Otherwise a subscription asked for with
+// backpressure silently becomes a lossy one (or the reverse: writers start waiting for a reader that asked not to be
+// waited for).
+func r098(c *an.Ctx) {
+	const rule = "R09.8"
+	n := 0
+	for _, fn := range c.Prog.FuncsIn(resPkg) {
+		if c.Prog.IsGenerated(fn.Pos()) {
+			continue
+		}
+		an.Instrs(fn, func(in ssa.Instruction) {
+			al, ok := in.(*ssa.Alloc)
+			if !ok || !strings.HasSuffix(an.NamedTypeName(deref(al.Type())), "/pkg/resource.ReadRequest") {
+				return
+			}
+			fields, _ := litFields(al)
+			if len(fields) == 0 {
+				return
+			}
+			// does it take a field from another request?
+			var src ssa.Value
+			for _, v := range fields {
+				for _, s0 := range an.SourcesOpaque(v) {
+					if base, sn, _, isF := an.FieldOf(s0); isF && strings.HasSuffix(sn, "/pkg/resource.ReadRequest") {
+						src = base
+					}
+				}
+			}
+			if src == nil || litCopiedFrom(al) != nil {
+				return
+			}
+			n++
+			var missing []string
+			for _, f := range []string{"Backpressure", "UpdatesOnly", "ReadMask"} {
+				if _, set := fields[f]; !set {
+					missing = append(missing, f)
+				}
+			}
+			c.SawFunc(an.FuncName(fn))
+			c.Check(len(missing) == 0, rule, an.FuncName(fn)+"|a derived read request keeps the delivery options", al.Pos(), "",
+				"a ReadRequest is assembled from another request's fields without "+strings.Join(missing, ", ")+": the subscription made with it no longer honours what the caller asked for (WithBackpressure(true) becomes a lossy merge stage: writes stop waiting and intermediate events are merged away)")
+		})
+	}
+	c.Count("derived_read_requests", n)
 }
